@@ -1289,9 +1289,24 @@ def check_C05(tier: str, seed: int) -> int:
         corr_fail, direct_fail = [], []
         distinct = set()
         nmodel = 0
-        BATCH = 4000          # observations are large (every image of every loadable input): compare batch by batch
-        for lo_ in range(0, len(lp), BATCH):
-            idx = list(range(lo_, min(len(lp), lo_ + BATCH)))
+        # observations are large (every image of every loadable input, ~25 canvas-sized images each): compare batch by batch, a
+        # batch being at most 4000 inputs and at most ~60 M observed pixels (the parsed observations of the two builds then
+        # stay below ~5 GB)
+        def canvas_of(path):
+            h = open(path, "rb").read(12)
+            return min(16 << 20, max(1, int.from_bytes(h[8:10], "little") * int.from_bytes(h[10:12], "little"))) if len(h) == 12 else 1
+        batches, cur, cost = [], [], 0
+        for k, path in enumerate(lp):
+            c = 25 * canvas_of(path) + 500
+            if cur and (len(cur) >= 4000 or cost + c > 60_000_000):
+                batches.append(cur)
+                cur, cost = [], 0
+            cur.append(k)
+            cost += c
+        if cur:
+            batches.append(cur)
+        for idx in batches:
+            lo_ = idx[0]
             blp = [lp[k] for k in idx]
             t_ = time.time()
             res = {prof: vplib.impl_observe(prof, blp, w.dir, 31, max_frames=3, max_layers=6, timeout=2400, mem_kb=4 * 1024 * 1024, tag="walk%d" % lo_)
@@ -1547,7 +1562,7 @@ def direct_C09(s, data, blk) -> List[str]:
 
 def check_C09(tier: str, seed: int) -> int:
     v = Verdict("C09", tier, seed, "proof")
-    ob = vplib.check_obligations("C09", expected=["C09_parent", "C09_parent_lt", "C09_visible", "C09_hidden"])
+    ob = vplib.check_obligations("C09", expected=["C09_parent", "C09_parent_lt", "C09_visible", "C09_hidden"], extra_files=["C09_e2e"] if os.path.exists(os.path.join(vplib.COQ, "Props", "C09_e2e.v")) else ())
     vplib.build_harness(["release", "dev"])
     w = Work("C09")
     try:
